@@ -4,6 +4,7 @@ import Driver.Int
 import Driver.Http
 import Driver.Timer
 import Driver.Locks
+import Driver.Reader
 /-!
 The model driver: one request per line on stdin, one reply per line on stdout.
 `<family> <op> <args…>`; payload strings are hex encoded.  Unknown or malformed requests answer
@@ -18,6 +19,7 @@ def dispatch (line : String) : String :=
   | "http" :: rest => Driver.Http.handle rest
   | "timer" :: rest => Driver.Timer.handle rest
   | "locks" :: rest => Driver.Locks.handle rest
+  | "reader" :: rest => Driver.Reader.handle rest
   | ["ping"] => "pong"
   | _ => "bad-op"
 
